@@ -23,6 +23,7 @@
 (*   regF   : [filter id -> filter]   registered (cached) filters          *)
 (*   obs    : [observer id -> observer spec] registered observers          *)
 (*   res    : [resource type -> value]  the resources present              *)
+(*   nreg   : component types registered since the world was set up        *)
 (* A handle is a pair <<id, gen>>; Zero == <<0,0>> is the zero entity.     *)
 (***************************************************************************)
 EXTENDS Integers, Sequences, FiniteSets, TLC
@@ -38,7 +39,7 @@ EmptyFn       == [x \in {} |-> x]
 Fn(r)         == [k \in DOMAIN r |-> r[k]]   \* normal form of a JSON object / record as a function
 
 NewWorld(rel) == [ent |-> EmptyFn, issued |-> {}, rel |-> rel, open |-> EmptyFn,
-                  cb |-> 0, regF |-> EmptyFn, obs |-> EmptyFn, res |-> EmptyFn]
+                  cb |-> 0, regF |-> EmptyFn, obs |-> EmptyFn, res |-> EmptyFn, nreg |-> 0]
 
 Alive(w)   == DOMAIN w.ent
 IsAlive(w, h) == h \in DOMAIN w.ent
@@ -207,14 +208,19 @@ DoRegF(w, f, flt) == [w EXCEPT !.regF = Merge(@, Single(f, flt))]
 DoUnregF(w, f)    == [w EXCEPT !.regF = Drop(@, {f})]
 
 PreReset(w) == ~Locked(w)
-DoReset(w)  == NewWorld(w.rel)
+DoReset(w)  == [NewWorld(w.rel) EXCEPT !.nreg = w.nreg]     \* the component registry survives Reset
 
 \* Unsafe.DumpEntities + Unsafe.LoadEntities into a fresh or reset world, which then replaces the world (C17): the
 \* same handles are alive / dead, entities have no components, nothing is registered; the next creations return
 \* what they would have returned in the source world (layer B: the free list travels with the dump).
 PreLoad(w) == ~Locked(w)
 DoLoad(w)  == [NewWorld(w.rel) EXCEPT !.ent = [h \in DOMAIN w.ent |-> [c |-> {}, v |-> EmptyFn, t |-> EmptyFn]],
-                                      !.issued = w.issued]
+                                      !.issued = w.issued, !.nreg = w.nreg]
+
+\* Registering a component type the world has not seen (C18): rejected on a locked world, nothing changes (C07);
+\* otherwise the type gets the next id; which components are relations never changes.
+PreRegType(w) == ~Locked(w)
+DoRegType(w)  == [w EXCEPT !.nreg = @ + 1]
 
 (***************************************************************************)
 (* Resources (C18, C16): a partial map from resource type to value.  Add   *)
